@@ -120,7 +120,7 @@ PROBES = [
 
 def probe_runs():
     texts = PROBES + [P.prog_text(p) for _, p, _, _ in WITNESSES]
-    tasks = [{"kind": "analyze", "text": t, "goals": [], "solve": False, "snapshots": True, "opts": {}, "timeout": 60} for t in texts]
+    tasks = [{"kind": "pass_snapshots", "text": t, "opts": {}, "timeout": 60} for t in texts]
     out = []
     for t, r in zip(texts, lib.run_tasks(tasks, timeout=60)):
         if "error" in r:
@@ -165,7 +165,7 @@ def run_pass(ctx, runs):
         body = HEADER
         for k, c in enumerate(cases[j:j + PER_FILE]):
             body += f"Definition fin{k} : flatprog := {c['fin']}.\nDefinition fout{k} : flatprog := {c['fout']}.\n"
-            body += f"Eval vm_compute in [constants_matches fin{k} fout{k}; constants_ok fin{k}].\n"
+            body += f"Eval vm_compute in [constants_matches fin{k} fout{k}; constants_ok fin{k}; constants_in_model fin{k}].\n"
         files.append((f"pconst_{j // PER_FILE}", body))
     outs = lib.coq_run_many(ctx, files, timeout=300)
     import re
@@ -181,6 +181,12 @@ def run_pass(ctx, runs):
         for c, l in zip(chunk, lists):
             bl = [x.strip() == "true" for x in l.split(";")]
             st["instances"] += 1
+            if not bl[2]:
+                # a default variable is itself a folded constant: Polar's output is not a flat program of the model
+                st["outside_model_default_substituted"] = st.get("outside_model_default_substituted", 0) + 1
+                if not bl[1]:
+                    st["hypothesis_false"] += 1
+                continue
             ctx.coverage["obligations"] += 1
             ctx.count({"pass": "ConstantsTransformer", "t": c["text"]}, nontrivial=c["folds"])
             if c["folds"]:
